@@ -40,7 +40,7 @@ theorem fact_expiry_comparisons :
 
 /-- `updateService`: timestamp, Get, wipe on seed change, then per presentation exists → skip, add, verify, flag -/
 theorem fact_update_service_shape :
-    Facts.C16.updateServiceCalls = ["store.getTimestamp", "client.Get", "store.wipeOnSeedChange", "store.exists",
+    Facts.C16.updateServiceCalls = ["store.getTimestamp", "client.Get", "store.wipeIfSeedChanged", "store.exists",
       "store.add", "u.verifier", "store.updateValidated"] ∧
     Facts.C16.updateSkipsExisting = true ∧
     Facts.C16.wipeConditions = ["service.Seed != seed && len() > 0"] := by decide
@@ -147,7 +147,7 @@ example : (register exDef {} 10 1 { exVP "a" "v1" 50 with creds := [{ exp := som
 
 /-! ### the replica -/
 
-/-- `updateService` returns right after a seed change wiped the replica (fix 305f8e3): the next poll starts at 0 -/
+/-- `updateService` returns right after a seed change wiped the replica (fix 305f8e3, 7847ccc): the next poll starts at 0 -/
 theorem fact_restart_after_wipe : Facts.C16.restartAfterWipe = true := by decide
 
 /-- the model instantiated with what the source says today -/
